@@ -231,6 +231,16 @@ func printRun(r *harnessRun) {
 		}
 		fmt.Printf("   [%s] %-40s checked %d folded %d discharged %d unknown %d %s\n", ls.Kind, l, ls.Checked, ls.Folded, ls.Discharged, ls.Unknown, st)
 	}
+	if os.Getenv("VERIF_FUNCS") != "" {
+		var fs []string
+		for f := range res.Functions {
+			fs = append(fs, f)
+		}
+		sort.Strings(fs)
+		for _, f := range fs {
+			fmt.Printf("   FUNC %s\n", f)
+		}
+	}
 	for _, u := range res.Unsupported {
 		fmt.Printf("   UNSUPPORTED %s\n", u)
 	}
